@@ -120,7 +120,7 @@ def judgePair (s1 s2 cuts protein : String) (out : List String) : Verdict :=
       let cutl := splitNonEmpty cuts ","
       let shapeOk := rest.length == 3 * cutl.length && validTableText o1 && validTableText o2
       let opsOk := operandOk s1 t1 && operandOk s2 t2
-      let inDom := Spec.ValueTables.Compatible t1 t2 && posTotals t1 && posTotals t2 && nonNeg t1 && nonNeg t2
+      let inDom := !t1.aminoAcids.isEmpty && !t2.aminoAcids.isEmpty && Spec.ValueTables.Compatible t1 t2 && posTotals t1 && posTotals t2 && nonNeg t1 && nonNeg t2
       let ma12 := Res.table (addTable t1 t2)
       let ma21 := Res.table (addTable t2 t1)
       let ia12 := parseRes a12
@@ -136,7 +136,11 @@ def judgePair (s1 s2 cuts protein : String) (out : List String) : Verdict :=
       -- confined to them is drift (named in class and detail), not an in-domain disagreement
       let realCvs := cvs.filter fun v => v.tag != "nonreal"
       let nonrealDrift := cvs.any fun v => v.tag == "nonreal" && !v.corr
-      let corr := shapeOk && opsOk && addCorr && realCvs.all (·.corr)
+      -- outside the property's pairs (different codes, empty or malformed tables, an amino acid that never occurs) only the
+      -- rejection of out-of-range cut-offs is constrained: everything else such a pair returns is drift
+      let corr := if inDom then shapeOk && opsOk && addCorr && realCvs.all (·.corr)
+                  else shapeOk && opsOk && (realCvs.filter fun v => !v.inRange).all (·.corr)
+      let outsideDrift := !inDom && !(addCorr && realCvs.all (·.corr))
       let pass := shapeOk && opsOk && addPass && cvs.all (·.pass)
       -- a pair outside the property's quantifier is judged only when ALL its cut-offs are out of range
       -- (the rejection clause holds for any tables); otherwise it is correspondence drift only
@@ -155,7 +159,7 @@ def judgePair (s1 s2 cuts protein : String) (out : List String) : Verdict :=
         cls := (if inDom then "pair/indomain" ++ (if difId.startsWith "/ids" then "/two-ids" else difId) ++ orderTag ++ ssTag
                 else if rejectOnly then "triv:pair/outside/reject-only" ++ nanTag
                 else "triv:pair/outside" ++ nanTag) ++
-               "/" ++ ",".intercalate tags ++ (if nonrealDrift then "/nonreal-drift" else ""),
+               "/" ++ ",".intercalate tags ++ (if nonrealDrift then "/nonreal-drift" else "") ++ (if outsideDrift then "/outside-drift" else ""),
         detail := if corr && pass then (if nonrealDrift then "drift on non-real cut-offs only: " ++
             " ".intercalate ((cvs.filter fun v => !v.corr).map (·.detail)) else "") else
           (if !opsOk then "operands differ from re-weighted regenerated tables; " else "") ++
